@@ -15,7 +15,8 @@ ID = "C19"
 LEVEL = "exploration"
 RULE = ("Hypothesis-generated documents (seeded) mixing plaintext scalars "
         "with encrypted scalars at arbitrary positions - hash values, list "
-        "elements, nested hashes, anchored secrets aliased under keys and "
+        "elements, nested hashes, anchored hashes/lists holding secrets that "
+        "are aliased elsewhere, anchored secrets aliased under keys and "
         "inside lists, plain / double-quoted / folded / literal styles "
         "(folded and literal values carry line breaks and indentation "
         "before and inside the marker), plaintexts with leading blanks, "
@@ -83,7 +84,7 @@ def emit_secret(cipher, style, indent, anchor):
 def build(struct):
     """struct: list of (key, value) where value is
         ("plain", scalar) | ("secret", idx, style, anchor) | ("alias", name)
-        | ("list", [value...]) | ("map", [(key, value)...])
+        | ("list", [value...][, anchor]) | ("map", [(key, value)...][, anchor])
     Returns (text, [plaintext per secret idx])."""
     lines = []
 
@@ -101,11 +102,13 @@ def build(struct):
         elif kind == "alias":
             lines.append(prefix + " *" + v[1])
         elif kind == "list":
-            lines.append(prefix)
+            lines.append(prefix + (" &" + v[2] if len(v) > 2 and v[2]
+                                   else ""))
             for item in v[1]:
                 emit_value(item, indent + 2, " " * (indent + 2) + "-")
         else:
-            lines.append(prefix)
+            lines.append(prefix + (" &" + v[2] if len(v) > 2 and v[2]
+                                   else ""))
             for k, item in v[1]:
                 emit_value(item, indent + 2, " " * (indent + 2) + k + ":")
 
@@ -127,6 +130,7 @@ def st_struct():
         nsecret_anchors = draw(st.integers(0, 2))
         anchors = ["s%d" % i for i in range(nsecret_anchors)]
         defined = []
+        cdefined = []
         entries = []
         nkeys = draw(st.integers(1, 6))
 
@@ -142,15 +146,23 @@ def st_struct():
                     defined.append(anc)
                 style = draw(styles)
                 return ("secret", draw(pidx), style, anc)
-            if choice == 6 and defined:
-                return ("alias", draw(st.sampled_from(defined)))
+            if choice == 6 and (defined or cdefined):
+                return ("alias", draw(st.sampled_from(defined + cdefined)))
             if depth >= 2:
                 return draw(plain)
-            if choice <= 7:
-                n = draw(st.integers(1, 3))
-                return ("list", [value(depth + 1) for _ in range(n)])
+            # a hash or list, sometimes anchored so that a later alias makes
+            # the secrets inside it reachable along two paths
             n = draw(st.integers(1, 3))
-            return ("map", [("k%d" % i, value(depth + 1)) for i in range(n)])
+            if choice <= 7:
+                items = ("list", [value(depth + 1) for _ in range(n)])
+            else:
+                items = ("map", [("k%d" % i, value(depth + 1))
+                                 for i in range(n)])
+            if len(cdefined) < 2 and draw(st.integers(0, 2)) == 0:
+                name = "c%d" % len(cdefined)
+                cdefined.append(name)
+                return items + (name,)
+            return items
 
         for i in range(nkeys):
             entries.append(("key%d" % i, value(0)))
